@@ -30,7 +30,7 @@
    second operand of a derived operation is the sequence its iterator yields.
    The tie to /repo is the correspondence check of checks/c12.py. *)
 From Coq Require Import List Bool NArith Arith Lia.
-From SV Require Import C12.Ops C12.Spec C12.Concrete C12.ProofsBase C12.ProofsOps C12.ProofsSpec C12.ProofsStep.
+From SV Require Import C12.Ops C12.Spec C12.Concrete C12.ProofsBase C12.ProofsOps C12.ProofsSpec C12.ProofsCount C12.ProofsStep.
 Import ListNotations.
 
 Definition eq_ok {K} (eqb : K -> K -> bool) : Prop := forall a b, eqb a b = true <-> a = b.
@@ -68,9 +68,9 @@ Proof.
   - apply (R_keys_nodup h s l HR).
 Qed.
 
-(* One operation, any of the 13 (insert / lookup / delete / discard / clear /
+(* One operation, any of the 15 (insert / lookup / delete / discard / clear /
    pop-first / setdefault / update / dict union / set union / intersection /
-   difference / symmetric difference): from a well-formed state representing l
+   difference / symmetric difference / issubset / issuperset): from a well-formed state representing l
    the model succeeds (no OutOfFuel, no Dangling pointer), returns exactly the
    output of the association list, and ends in a well-formed state representing
    the association list's result. *)
@@ -247,6 +247,24 @@ Proof.
   - intros k v. destruct (step_ok eqb He h vnone s l (OSetDefault k v) HR) as (s' & H1 & R1). exists s'.
     cbn in *. destruct (sp_lookup eqb l k); auto.
   - exists (clear s). repeat split. apply (R_empty_table h).
+Qed.
+
+(* hashtable.count with its per-chain bitsets: issubset / issuperset (and the set
+   comparisons <=, >=, built on them) answer as the association list does *)
+Theorem subset_queries :
+  forall (K V : Type) (eqb : K -> K -> bool) (h : K -> N), eq_ok eqb ->
+  forall (s : @state K V) l ks, R h s l ->
+    (is_subset eqb h s ks = true <-> forall k, In k (keys l) -> In k ks) /\
+    (is_superset eqb h s ks = true <-> forall k, In k ks -> In k (keys l)).
+Proof.
+  intros K V eqb h He s l ks HR.
+  rewrite (is_subset_ok eqb He h s l ks HR), (is_superset_ok eqb He h s l ks HR).
+  unfold sp_issubset, sp_issuperset. rewrite !forallb_forall. split; split.
+  - intros H k Hk. unfold keys in Hk. apply in_map_iff in Hk. destruct Hk as (kv & <- & Hkv).
+    apply (memb_in eqb He). auto.
+  - intros H kv Hkv. apply (memb_in eqb He). apply H. apply in_map. auto.
+  - intros H k Hk. apply (memb_in eqb He). auto.
+  - intros H k Hk. apply (memb_in eqb He). auto.
 Qed.
 
 (* ---------------------------------------------------------------- non-vacuity *)
